@@ -24,7 +24,9 @@ EXTENDS Naturals, Sequences, FiniteSets, TLC, Json
 CONSTANTS HeaderLines,       \* 10
           BlockEndSuppressesAbove   \* TRUE: the pinned commit's _handle_block_end
 
-Forms      == {"sameLine", "nextLine", "block", "fileHeader", "repoPattern", "linterPattern"}
+\* repoDirPattern: the whole project lives one level down in app/generated/ and the repository ignore file holds the
+\* directory pattern `generated/` (a directory pattern applies at any depth): every file is covered
+Forms      == {"sameLine", "nextLine", "block", "fileHeader", "repoPattern", "linterPattern", "repoDirPattern"}
 Spellings  == {"fullId", "linterPrefix", "prefixStar", "upperCase", "mixedCase", "alias", "aliasUpper",
                "aliasPrefix", "bare", "otherRule", "listFirst", "listLast"}
 \* `ignore[nesting,srp]`: documented for same-line directives (how-to-ignore-violations.md, "Multiple Rules on Same Line")
@@ -37,7 +39,7 @@ ValidPlacement(f, p) ==
       [] f = "nextLine"   -> p \in {"before", "twoBefore", "after"}
       [] f = "block"      -> p \in {"around", "aroundOther"}
       [] f = "fileHeader" -> p \in {"header", "body"}
-      [] f \in {"repoPattern", "linterPattern"} -> p = "on"
+      [] f \in {"repoPattern", "linterPattern", "repoDirPattern"} -> p = "on"
 
 \* A second directive stacked on the first one.  It always names ANOTHER rule, so by the requirement it changes
 \* nothing: the findings of the file with both directives are those of the file with the first directive alone
@@ -70,7 +72,7 @@ Emit == done => PrintT(<<"CASE", ToJson([form |-> form, spelling |-> spelling, p
 \* d.tlinter / d.tsub: the rule of the violation the directive was written for;
 \* d.olinter / d.osub: the rule named when spelling = "otherRule"
 Names(d, v) ==
-    CASE d.form = "repoPattern"   -> TRUE                       \* the file is not linted at all
+    CASE d.form \in {"repoPattern", "repoDirPattern"} -> TRUE     \* the file is not linted at all
       [] d.form = "linterPattern" -> v.linter = d.tlinter       \* <section>: ignore: [pattern]
       [] d.spelling \in {"fullId", "upperCase", "mixedCase"} -> v.linter = d.tlinter /\ v.sub = d.tsub
       [] d.spelling \in {"linterPrefix", "prefixStar"}        -> v.linter = d.tlinter
@@ -88,7 +90,7 @@ NewLine(d, v) == IF v.pinned THEN v.line
                  ELSE v.line + Cardinality({i \in 1..Len(d.before) : d.before[i] <= v.line})
 
 InScope(d, nl) ==
-    CASE d.form \in {"repoPattern", "linterPattern"} -> TRUE
+    CASE d.form \in {"repoPattern", "linterPattern", "repoDirPattern"} -> TRUE
       [] d.form = "sameLine"   -> nl = d.at
       [] d.form = "nextLine"   -> nl = d.at + 1
       [] d.form = "block"      -> d.at < nl /\ nl < d.endAt
@@ -97,7 +99,8 @@ InScope(d, nl) ==
 \* A cross-file finding (duplicate code, repeated string set) in ANOTHER file loses its partner when the
 \* directive's file is not analysed at all for that rule (repository / linter level pattern).
 PartnerGone(d, v) == d.form \in {"repoPattern", "linterPattern"} /\ v.cross /\ v.file # d.file /\ Names(d, v)
-Survives(d, v) == ~(v.file = d.file /\ Names(d, v) /\ InScope(d, NewLine(d, v))) /\ ~PartnerGone(d, v)
+Survives(d, v) == /\ d.form # "repoDirPattern"
+                  /\ ~(v.file = d.file /\ Names(d, v) /\ InScope(d, NewLine(d, v))) /\ ~PartnerGone(d, v)
 NewLineF(d, v) == IF v.file = d.file THEN NewLine(d, v) ELSE v.line
 Expected(base, d) == {[file |-> v.file, linter |-> v.linter, sub |-> v.sub, line |-> NewLineF(d, v), n |-> v.n, cross |-> v.cross, pinned |-> v.pinned] :
                           v \in {w \in base : Survives(d, w)}}
